@@ -30,6 +30,10 @@ func (s Setting) pkgMTime() time.Time {
 		return time.Date(1999, 12, 31, 23, 59, 58, 0, time.UTC)
 	case "unset":
 		return time.Time{}
+	case "F": // a configured mtime that is not a whole second
+		return PkgMTime.Add(750 * time.Millisecond)
+	case "G":
+		return PkgMTime.Add(500 * time.Millisecond)
 	}
 	return PkgMTime
 }
@@ -149,6 +153,23 @@ func c01Templates() []model.Entry {
 	return base
 }
 
+// c01Fractional: entries whose times are not whole seconds.
+func c01Fractional() []model.Entry {
+	return []model.Entry{
+		{Src: "frac/f75.txt", Dst: "/opt/frac/f75.txt"},
+		{Src: "frac/f25.txt", Dst: "/opt/frac/f25.txt"},
+		{Src: "frac/f999.txt", Dst: "/opt/frac/f999.txt"},
+		{Src: "frac/f5.txt", Dst: "/opt/frac/f5.txt", Type: "config"},
+		{Src: "frac", Dst: "/opt/fractree", Type: "tree"},
+		{Src: "frac/*.txt", Dst: "/opt/fracglob"},
+		{Src: "frac/l", Dst: "/opt/fraclink"},
+		{Src: "etc/app.conf", Dst: "/opt/entrytime.conf", MTime: EntryMTime.Add(750 * time.Millisecond)},
+		{Dst: "/opt/entrytime.d", Type: "dir", MTime: EntryMTime.Add(500 * time.Millisecond)},
+		{Src: "/t", Dst: "/opt/entrytime.link", Type: "symlink", MTime: EntryMTime.Add(999 * time.Millisecond)},
+		{Dst: "/opt/entrytime.ghost", Type: "ghost", MTime: EntryMTime.Add(600 * time.Millisecond)},
+	}
+}
+
 const c01NQuick = 25
 
 func c01Tagged() []model.Entry {
@@ -209,6 +230,19 @@ func init() {
 							return
 						}
 					}
+				}
+			}
+			// times that are not whole seconds - on disk, configured for the package, configured for an entry:
+			// every format stores the whole second they fall in (never the next one)
+			fr := c01Fractional()
+			for _, s := range []Setting{sets[0], {Name: "mtime=unset", MTime: "unset"}, {Name: "mtime=F", MTime: "F"}, {Name: "mtime=G", MTime: "G"}} {
+				for _, e := range fr {
+					if !yield(C01Case{Setting: s, List: []model.Entry{e}}) {
+						return
+					}
+				}
+				if !yield(C01Case{Setting: s, List: fr}) {
+					return
 				}
 			}
 			// pairs under every setting (compression settings: pairs of untagged templates only)
